@@ -257,6 +257,7 @@ def s_encode(ex, st, recv, args, kwargs, cx):
     yield st, ex.o.bytes_(f(s))
 
 
+trusted("str.lower/upper/strip", "lower and upper are idempotent and map the empty string, and only it, to the empty string; strip is idempotent and never lengthens")
 trusted("str.encode/bytes.decode", "utf8_dec(utf8(s)) == s; utf8(s) empty iff s empty; decode raises UnicodeDecodeError exactly on non-UTF-8 input (predicate is_utf8)")
 
 
@@ -282,6 +283,7 @@ def s_lower(ex, st, recv, args, kwargs, cx):
     s = ex.o.s(recv)
     st = st.clone()
     st.assume(f(f(s)) == f(s))
+    st.assume((z3.Length(f(s)) == 0) == (z3.Length(s) == 0))
     yield st, ex.o.str_(f(s))
 
 
@@ -290,6 +292,7 @@ def s_upper(ex, st, recv, args, kwargs, cx):
     s = ex.o.s(recv)
     st = st.clone()
     st.assume(f(f(s)) == f(s))
+    st.assume((z3.Length(f(s)) == 0) == (z3.Length(s) == 0))
     yield st, ex.o.str_(f(s))
 
 
@@ -766,3 +769,30 @@ def b_getattr(ex, st, args, kwargs, cx, node):
 
 
 BUILTIN_FUNCS["getattr"] = b_getattr
+
+
+# ====================================================================== re / str.join
+trusted("re.Pattern.match", "pattern.match(s) is truthy exactly when the uninterpreted predicate regex_match(pattern, s) holds (deterministic, side-effect free)")
+
+
+def p_match(ex, st, recv, args, kwargs, cx):
+    w, o = ex.w, ex.o
+    f = w.fun("regex_match", "V", "str", "bool")
+    ok = f(recv.e, o.s(args[0]))
+    a = st.clone()
+    a.assume(ok)
+    if o.feasible(a):
+        r = a.new_ref("object")
+        yield a, o.ref(r, "object")
+    b = st.clone()
+    b.assume(z3.Not(ok))
+    if o.feasible(b):
+        yield b, o.none()
+
+
+def s_join(ex, st, recv, args, kwargs, cx):
+    yield st, ex.o.str_(ex.w.fresh("joined", z3.StringSort()))
+
+
+CONTAINER_METHODS[("Pattern", "match")] = p_match
+STR_METHODS[("str", "join")] = s_join
